@@ -206,8 +206,10 @@ def default_cfg():
     return {"p": "./src-tauri", "o": "./src/generated", "lib": "none", "viz": False, "force": False}
 
 
-def from_tauri_config(path, cwd_abs):
-    """GenerateConfig::from_tauri_config: ('some', cfg) | ('none',) | ('err',)"""
+def from_tauri_config(path, cwd_abs, validate=True):
+    """GenerateConfig::from_tauri_config (validate=True; the build-script path) and
+    from_tauri_config_unvalidated (validate=False; run_generate applies the flags on top of the file's
+    settings and validates the effective configuration afterwards): ('some', cfg) | ('none',) | ('err',)"""
     try:
         doc = json.loads(open(path, encoding="utf-8").read())
     except (OSError, ValueError):
@@ -225,7 +227,7 @@ def from_tauri_config(path, cwd_abs):
             v = tg.get(key)
             if isinstance(v, ty) and not (ty is str and isinstance(v, bool)):
                 c[field] = v
-    if c["lib"] not in ("zod", "none") or not os.path.exists(os.path.join(cwd_abs, c["p"])):
+    if validate and (c["lib"] not in ("zod", "none") or not os.path.exists(os.path.join(cwd_abs, c["p"]))):
         return ("err",)
     return ("some", c)
 
@@ -271,8 +273,8 @@ def cli_effective(cwd_abs, args):
         for cand in ("tauri.conf.json", "src-tauri/tauri.conf.json", "../tauri.conf.json"):
             p = os.path.join(cwd_abs, cand)
             if os.path.exists(p):
-                r = from_tauri_config(p, cwd_abs)
-                if r[0] == "some":
+                r = from_tauri_config(p, cwd_abs, validate=False)    # an invalid value in the file is refused below,
+                if r[0] == "some":                                   # by config.validate() on the effective settings
                     c = r[1]
                     break
                 if r[0] == "none":
